@@ -386,7 +386,8 @@ class IndexBase(ContainerOperand):
         if len(others) == 1:
             return self._ufunc_set(func, others[0])
 
-        post = self
+        # without operands the result is this index: never hand out a mutable index itself
+        post = self if self.STATIC else self.copy()
         for other in others:
             post = post._ufunc_set(func, other)
         return post
@@ -399,7 +400,8 @@ class IndexBase(ContainerOperand):
         if len(others) == 1:
             return self._ufunc_set(func, others[0])
 
-        post = self
+        # without operands the result is this index: never hand out a mutable index itself
+        post = self if self.STATIC else self.copy()
         for other in others:
             post = post._ufunc_set(func, other)
         return post
